@@ -223,7 +223,10 @@ class Ctx:
             "wall_s": round(wall, 2),
             "violations": len(self.violations),
         }
-        with open(os.path.join(VERIF, "evidence", f"{self.pid}.json"), "w") as f:
+        # extension areas beyond the listed properties (ids X..) keep their evidence apart from the interface files
+        evdir = "evidence_extra" if self.pid.startswith("X") else "evidence"
+        os.makedirs(os.path.join(VERIF, evdir), exist_ok=True)
+        with open(os.path.join(VERIF, evdir, f"{self.pid}.json"), "w") as f:
             json.dump(ev, f, indent=1, default=str)
             f.write("\n")
         shutil.rmtree(self.tmp, ignore_errors=True)
